@@ -1,16 +1,25 @@
 #!/bin/sh
-# re-run every seeded change under /verif/seeded against its property's quick check; writes seeded/RESULTS.tsv
-cd /verif
-out=seeded/RESULTS.tsv
+# usage: tools/mutall.sh [jobs]  -- re-run every seeded change under /verif/seeded against its property's quick check
+# (in scratch worktrees of /repo's HEAD, in parallel); writes seeded/RESULTS.tsv
+J="${1:-12}"; cd /verif; out=seeded/RESULTS.tsv; W=/tmp/mutall
+mkdir -p $W; ls -d seeded/C*-m*/ | xargs -n1 basename > $W/jobs.txt
+worker() {
+  k=$1; wt=$W/wt$k
+  git -C /repo worktree add -q --detach $wt HEAD 2>/dev/null
+  i=0
+  while read id; do
+    i=$((i+1)); [ $((i % J)) -eq $((k % J)) ] || continue
+    C=${id%%-*}
+    git -C $wt checkout -q -- . ; git -C $wt apply /verif/seeded/$id/patch.diff || { printf "%s\t%s\tNOAPPLY\n" $id $C >> $W/out$k.tsv; continue; }
+    VERIF_REPO=$wt VERIF_EVIDENCE_DIR=$W/ev$k VERIF_REPLAY_DIR=$W/rp$k ./check "$C" --tier quick > $W/log$k.txt 2>&1; rc=$?
+    nb=$(grep -c "^  bounded" $W/log$k.txt); no=$(grep -c "^  obligation" $W/log$k.txt); nu=$(grep -c "^UNDECIDED" $W/log$k.txt)
+    first=$(grep -m1 "^  obligation" $W/log$k.txt | sed 's/^  obligation[-a-z]* //' | cut -d: -f1 | cut -c1-160 | tr '\t' ' ')
+    printf "%s\t%s\t%s\t%s\t%s\t%s\t%s\n" $id $C $rc $no $nb $nu "$first" >> $W/out$k.tsv
+  done < $W/jobs.txt
+  git -C /repo worktree remove --force $wt
+}
+for k in $(seq 1 $J); do worker $k & done; wait
 printf "seeded\tproperty\texit\tobligation_violations\tbounded_violations\tundecided\tfirst_failing_obligation\n" > $out
-for d in seeded/C*-m*/; do
-  id=$(basename $d); C=${id%%-*}
-  git -C /repo apply "/verif/${d}patch.diff" || { printf "%s\t%s\tNOAPPLY\n" $id $C >> $out; continue; }
-  VERIF_EVIDENCE_DIR=/tmp/mut_evidence ./check "$C" --tier quick > /tmp/mutall.log 2>&1; rc=$?
-  git -C /repo checkout -- .
-  nb=$(grep -c "^  bounded" /tmp/mutall.log); no=$(grep -c "^  obligation" /tmp/mutall.log); nu=$(grep -c "^UNDECIDED" /tmp/mutall.log)
-  first=$(grep -m1 "^  obligation" /tmp/mutall.log | sed 's/^  obligation[-a-z]* //' | cut -d: -f1 | cut -c1-160)
-  printf "%s\t%s\t%s\t%s\t%s\t%s\t%s\n" $id $C $rc $no $nb $nu "$first" >> $out
-done
-rm -f /tmp/mutall.log; rm -rf /tmp/mut_evidence
-cat $out
+cat $W/out*.tsv | sort >> $out
+rm -rf $W; git -C /repo worktree prune
+awk -F'\t' 'NR>1{n++; if($3==1)c++} END{print c" of "n" reported (exit 1)"}' $out
